@@ -48,23 +48,28 @@ def select(singular: str, plural: Optional[str], count: Any, count_given: bool) 
     return (plural if plural_chosen else singular), plural_chosen
 
 
-def count_conversion_matters(count: Any) -> bool:
-    """True iff ``count`` is a numeric string whose integer conversion selects another form
-    than the raw string does (``"1"``).  docs/optional_filters.md calls the count "a number
-    used to determine if the singular or plural message should be used" and says nothing about
-    strings, so neither reading is imposed for such a count."""
+def form_unspecified(count: Any) -> bool:
+    """True iff neither the statement nor the docs settle which form ``count`` selects.
+
+    docs/optional_filters.md calls the count "a number used to determine if the singular or
+    plural message should be used" and says nothing about conversion.  Unsettled therefore:
+    a string that is not an integer numeral ("many"), a numeric string whose integer
+    conversion selects another form than the raw string does ("1"), and a non-integral
+    float (2.5: outside gettext's domain -- plural rules are defined on integers)."""
+    if isinstance(count, float):
+        return count != int(count)
     if not isinstance(count, str):
         return False
     try:
         n = int(count)
     except ValueError:
-        return False
+        return True
     return NULL.ngettext("singular", "plural", n) != NULL.ngettext("singular", "plural", count)
 
 
 def stringify(v: Any) -> str:
-    """String representation of the (str / int) values this check supplies."""
-    assert isinstance(v, (str, int)) and not isinstance(v, bool)
+    """String representation of the (str / int / float) values this check supplies."""
+    assert isinstance(v, (str, int, float)) and not isinstance(v, bool)
     return str(v)
 
 
